@@ -20,6 +20,16 @@ func Root() string {
 	return "/verif"
 }
 
+// OutRoot is where evidence and replay files are written: the verification directory, unless a
+// check of another copy of the repository (VERIF_REPO, scratch worktrees) redirects it so that such
+// runs never touch the evidence of the registered checks.
+func OutRoot() string {
+	if r := os.Getenv("VERIF_OUT"); r != "" {
+		return r
+	}
+	return Root()
+}
+
 type known struct {
 	prop, fingerprint, text string
 }
@@ -107,7 +117,7 @@ func Seed() int {
 
 // Finish prints findings, writes replay files and the evidence file, and returns the exit code.
 func Finish(ev *Evidence, vs []Violation) int {
-	root := Root()
+	root := OutRoot()
 	unknown := 0
 	printedKnown := map[string]bool{}
 	printedViol := map[string]bool{}
@@ -212,6 +222,34 @@ func mergeEvidence(ev *Evidence, path string) {
 			return x
 		}
 		return 0
+	}
+	// the first engine's level is the one claimed in the manifest: the merged record keeps it, with
+	// the keys that level requires
+	ownLevel := ev.Level
+	ev.Level = prev.Level
+	if prev.Level == "exploration" || prev.Level == "fault_enumeration" {
+		if ev.Coverage["evaluations"] == nil {
+			// a model-checking part counts its executions / transitions as evaluations and its distinct
+			// observed outcomes as the distinct non-trivial cases
+			n := num(ev.Coverage["executions"])
+			if n == 0 {
+				n = num(ev.Coverage["transitions"])
+			}
+			ev.Coverage["evaluations"] = n
+			ev.Coverage["distinct_nontrivial"] = num(ev.Coverage["distinct_outcomes"])
+		}
+		if r, ok := prev.Coverage["rule"].(string); ok {
+			ev.Coverage["rule"] = r + "; second part (" + ownLevel + "): every execution / transition of the exploration is one evaluation, distinct = distinct observed outcomes"
+		}
+	}
+	for k, v := range prev.Coverage {
+		if _, ok := ev.Coverage[k]; !ok && k != "parts" {
+			switch k {
+			case "outcomes", "scenarios", "states_per_depth", "alphabet", "cap_hit", "frontier_left", "max_depth_completed":
+			default:
+				ev.Coverage[k] = v
+			}
+		}
 	}
 	for _, k := range []string{"states", "transitions", "traces_validated_against_impl", "oracle_comparisons", "evaluations", "distinct_nontrivial", "distinct_outcomes"} {
 		if _, ok := prev.Coverage[k]; ok || ev.Coverage[k] != nil {
